@@ -81,7 +81,13 @@ K = {k}
 FORMS = [('aa', {{'variable': 'aa'}}), ('1', {{'number': 1.0}}), ('(bb + 2)', {{'group': {{'binary': {{'op': '+', 'left': {{'variable': 'bb'}}, 'right': {{'number': 2.0}}}}}}}}),
          ('-cc', {{'unary': {{'op': '-', 'expr': {{'variable': 'cc'}}}}}}), ('!dd', {{'unary': {{'op': '!', 'expr': {{'variable': 'dd'}}}}}}),
          ('ff(ee, 3)', {{'function': {{'name': 'ff', 'args': [{{'variable': 'ee'}}, {{'number': 3.0}}]}}}}),
-         ("'s'", {{'string': 's'}}), ('[x y]', {{'variable': 'x y'}})]
+         ("'s'", {{'string': 's'}}), ('[x y]', {{'variable': 'x y'}}),
+         ('!-gg', {{'unary': {{'op': '!', 'expr': {{'unary': {{'op': '-', 'expr': {{'variable': 'gg'}}}}}}}}}}),
+         ('-!gg', {{'unary': {{'op': '-', 'expr': {{'unary': {{'op': '!', 'expr': {{'variable': 'gg'}}}}}}}}}}),
+         ('- -gg', {{'unary': {{'op': '-', 'expr': {{'unary': {{'op': '-', 'expr': {{'variable': 'gg'}}}}}}}}}}),
+         ('!(-gg)', {{'unary': {{'op': '!', 'expr': {{'group': {{'unary': {{'op': '-', 'expr': {{'variable': 'gg'}}}}}}}}}}}}),
+         ('ff(!-1, -(2))', {{'function': {{'name': 'ff', 'args': [{{'unary': {{'op': '!', 'expr': {{'unary': {{'op': '-', 'expr': {{'number': 1.0}}}}}}}}}},
+                                                              {{'unary': {{'op': '-', 'expr': {{'group': {{'number': 2.0}}}}}}}}]}}}})]
 
 
 def _pick(seq, i):
@@ -109,6 +115,23 @@ def core_chain(o2, o3, fpos, form, tight):
         return False, {{'clause': 'well-formed expression rejected', 'text': text, 'error': exc.error}}
     if got != want:
         return False, {{'clause': 'parse tree differs from the tree the precedence levels dictate', 'text': text, 'parsed': repr(got)[:300], 'expected': repr(want)[:300]}}
+    return True, {{}}
+
+
+def core_chain4(o2, o3, o4):
+    # four-operator chains over plain identifiers (the right-spine re-ordering needs >= 4 operators to go wrong in some ways)
+    ops = [OPS[FIRST], _pick(OPS, o2), _pick(OPS, o3), _pick(OPS, o4)]
+    names = ['aa', 'bb', 'cc', 'dd', 'ee']
+    text = names[0]
+    for j, op in enumerate(ops):
+        text += ' ' + op + ' ' + names[j + 1]
+    want = spec_tree([{{'variable': n}} for n in names], ops)
+    try:
+        got = parse_expression(text)
+    except BareScriptParserError as exc:
+        return False, {{'clause': 'well-formed expression rejected', 'text': text, 'error': exc.error}}
+    if got != want:
+        return False, {{'clause': 'parse tree differs from the tree the precedence levels dictate', 'text': text, 'parsed': repr(got)[:400], 'expected': repr(want)[:400]}}
     return True, {{}}
 
 
@@ -198,11 +221,21 @@ def plan(tier, seed, workdir):
     for k in range(1, kmax + 1):
         for first in range(14):
             body = CORE.format(first=first, k=k)
-            pre = ['0 <= o2 < 14' if k >= 2 else 'o2 == 0', '0 <= o3 < 14' if k >= 3 else 'o3 == 0', f'0 <= fpos <= {k}', '0 <= form < 8']
+            pre = ['0 <= o2 < 14' if k >= 2 else 'o2 == 0', '0 <= o3 < 14' if k >= 3 else 'o3 == 0', f'0 <= fpos <= {k}', '0 <= form < 13']
             body += hgen.harness('chain', 'o2: int, o3: int, fpos: int, form: int, tight: bool', pre, core_call='core_chain(o2, o3, fpos, form, tight)')
             path = hgen.write_module(workdir, f'c02_chain_k{k}_{first:02d}', body, stub=False)
             hgen.ch_tasks(p, path, 'chain', timeout, twin_timeout=60, est=40 if k < 3 else 300, family=f'E1 operator chains k={k}', first_operator=ps and
                           ['**', '*', '/', '%', '+', '-', '<=', '<', '>=', '>', '==', '!=', '&&', '||'][first])
+    import random
+    firsts4 = list(range(14))
+    if tier == 'quick':
+        random.Random(seed).shuffle(firsts4)
+        firsts4 = sorted(firsts4[:5])          # quick: 5 seeded shards (by first operator) of the 14; thorough: all 14^4 chains
+    for first in firsts4:
+        body = CORE.format(first=first, k=4)
+        body += hgen.harness('chain4', 'o2: int, o3: int, o4: int', ['0 <= o2 < 14', '0 <= o3 < 14', '0 <= o4 < 14'], core_call='core_chain4(o2, o3, o4)')
+        path = hgen.write_module(workdir, f'c02_chain4_{first:02d}', body, stub=False)
+        hgen.ch_tasks(p, path, 'chain4', timeout * 2, twin_timeout=60, est=60, family='E1 four-operator chains over identifiers (all 14^4)', first_operator=first)
     for first in range(15):
         body = CORE.format(first=first, k=1)
         body += hgen.harness('soup', 't2: int, t3: int, n: int', ['0 <= t2 < 15', '0 <= t3 < 15', '1 <= n <= 3'], core_call='core_soup(t2, t3, n)')
@@ -210,10 +243,10 @@ def plan(tier, seed, workdir):
         hgen.ch_tasks(p, path, 'soup', timeout, twin_timeout=60, est=30, family='E1 token soup accept/reject', first_token=first)
     p.rule = ('1 z3 lemma over the live precedence table (196 pairs, symbolic operators); CrossHair conditions sharded by first operator / first '
               'token: all operator chains up to k, one operand of each chain replaced by each of 8 forms at each position, with and without blanks')
-    p.bounds = [f'operator chains k <= {kmax} exhaustively (14^k)', 'operand forms: identifier, number, group, unary -, unary !, call, string, bracketed name',
+    p.bounds = [f'operator chains k <= {kmax} exhaustively (14^k) with operand forms; four-operator chains over identifiers: all 14^4 (thorough) / 5 of 14 first-operator shards (quick, seeded)', 'operand forms: identifier, number, group, unary -, unary !, stacked unaries (!-x, -!x, - -x, !(-x)), call (also with unary arguments), string, bracketed name',
                 'token soup: <= 3 tokens over 15 tokens']
     p.stubs = []
-    p.outside = ['chains of length 4 (38 416)', 'random depth-8 expressions and arbitrary token strings (symbolic text cannot reach the parser)',
+    p.outside = ['chains of length >= 5; length 4 with non-identifier operands', 'random depth-8 expressions and arbitrary token strings (symbolic text cannot reach the parser)',
                  'numeric literal spellings (C13)']
     p.assumptions = ['precedence-climbing reference and LL(1) recogniser in vf/props/c02.py', 'z3', 'CrossHair (enumeration only)']
     p.samples = [{'text': 'v0x + v1x * (bb + 2)', 'expected': 'binary(+, v0x, binary(*, v1x, group))'}, {'soup': ['aa', '=', 'aa'], 'expected': 'reject'}]
